@@ -11,6 +11,7 @@ import (
 	"hash/fnv"
 	"io"
 	"math"
+	"math/big"
 	"os"
 	"path/filepath"
 	"strconv"
@@ -491,6 +492,106 @@ type c20Holder struct {
 	Z string         `json:"z"`
 }
 
+// c20Money: JSON methods on the pointer receiver only (like math/big.Int)
+type c20Money struct{ cents int64 }
+
+func (m *c20Money) MarshalJSON() ([]byte, error) {
+	sign := ""
+	c := m.cents
+	if c < 0 {
+		sign, c = "-", -c
+	}
+	return []byte(fmt.Sprintf("\"%s%d.%02d\"", sign, c/100, c%100)), nil
+}
+
+func (m *c20Money) UnmarshalJSON(b []byte) error {
+	var s string
+	if err := json.Unmarshal(b, &s); err != nil {
+		return err
+	}
+	neg := strings.HasPrefix(s, "-")
+	s = strings.TrimPrefix(s, "-")
+	a, f, ok := strings.Cut(s, ".")
+	if !ok || len(f) != 2 {
+		return fmt.Errorf("bad money %q", s)
+	}
+	x, err1 := strconv.ParseInt(a, 10, 64)
+	y, err2 := strconv.ParseInt(f, 10, 64)
+	if err1 != nil || err2 != nil {
+		return fmt.Errorf("bad money %q", s)
+	}
+	m.cents = x*100 + y
+	if neg {
+		m.cents = -m.cents
+	}
+	return nil
+}
+
+type c20Invoice struct {
+	ID    string   `json:"id"`
+	Total c20Money `json:"total"`
+}
+
+type c20HolderT[T any] struct {
+	A int          `json:"a"`
+	L lazy.Lazy[T] `json:"l"`
+	Z string       `json:"z"`
+}
+
+// c20LazyTyped: the round trip of a Lazy[T] whose value is given by its canonical JSON text
+func c20LazyTyped[T any](field bool, text []byte) (res string) {
+	defer func() {
+		if r := recover(); r != nil {
+			res = "panic"
+		}
+	}()
+	var v T
+	if err := json.Unmarshal(text, &v); err != nil {
+		return "bad-case"
+	}
+	if back, err := json.Marshal(&v); err != nil || string(back) != string(text) {
+		return "bad-case" // the text is not the canonical one: the case itself is wrong
+	}
+	l := lazy.Just[T](v)
+	var m []byte
+	var err error
+	if field {
+		m, err = json.Marshal(c20HolderT[T]{A: 1, L: l, Z: "x"})
+	} else {
+		m, err = json.Marshal(l)
+	}
+	if err != nil {
+		return "m=err um=- opt=- get=-"
+	}
+	var l2 lazy.Lazy[T]
+	um := "ok"
+	if field {
+		var h c20HolderT[T]
+		if err := json.Unmarshal(m, &h); err != nil {
+			um = "err"
+		}
+		l2 = h.L
+	} else if err := json.Unmarshal(m, &l2); err != nil {
+		um = "err"
+	}
+	opt, get := "err", "err"
+	if o, err := l2.GetOptional(context.Background()); err == nil {
+		if o == nil {
+			opt = "none"
+		} else if b, err := json.Marshal(o); err == nil {
+			opt = "some:" + c20hex(b)
+		}
+	}
+	if g, err := l2.Get(context.Background()); err == nil {
+		if b, err := json.Marshal(&g); err == nil {
+			get = "ok:" + c20hex(b)
+		}
+	} else if strings.Contains(err.Error(), "lazy value is empty") {
+		get = "empty"
+	}
+	return fmt.Sprintf("m=%s um=%s opt=%s get=%s", c20hex(m), um, opt, get)
+}
+
 func c20getStr(l lazy.Lazy[any]) (res string) {
 	defer func() {
 		if r := recover(); r != nil {
@@ -553,6 +654,23 @@ func c20execLazy(mode, src string) string {
 			l = lazy.Error[any](errors.New("boom"))
 		case src == "nullv":
 			l = lazy.Just[any](nil)
+		case strings.HasPrefix(src, "t:"):
+			// typed Lazies: element types whose JSON methods have POINTER receivers (encoding/json calls those only on
+			// addressable values): t:<kind>:<hex of the value's canonical JSON text>
+			kind, hx, _ := strings.Cut(src[2:], ":")
+			b, ok := c20unhex(hx)
+			if !ok {
+				return "bad-case"
+			}
+			switch kind {
+			case "big":
+				return c20LazyTyped[big.Int](field, b)
+			case "pm":
+				return c20LazyTyped[c20Money](field, b)
+			case "spm":
+				return c20LazyTyped[c20Invoice](field, b)
+			}
+			return "bad-case"
 		case strings.HasPrefix(src, "v:"):
 			b, ok := c20unhex(src[2:])
 			if !ok {
@@ -1376,6 +1494,11 @@ func genC20Lazy(c *Ctx) {
 		for _, src := range []string{"empty", "err", "nullv", "raw:6e756c6c", "raw:" + c20hex([]byte("42")), "raw:" + c20hex([]byte(`{"a":[1,"x"]}`)),
 			"v:" + c20hex([]byte("0")), "v:" + c20hex([]byte(`""`)), "v:" + c20hex([]byte(`"null"`)), "v:" + c20hex([]byte("[]")), "v:" + c20hex([]byte("false"))} {
 			c.Case(true, fmt.Sprintf("lazy %s %s", mode, src))
+		}
+		for _, tc := range []string{"big:12345678901234567890", "big:-7", "big:0", "pm:\"12.34\"", "pm:\"-0.05\"", "pm:\"0.00\"",
+			"spm:{\"id\":\"inv-1\",\"total\":\"1.05\"}", "spm:{\"id\":\"\",\"total\":\"0.00\"}"} {
+			k, txt, _ := strings.Cut(tc, ":")
+			c.Case(true, fmt.Sprintf("lazy %s t:%s:%s", mode, k, c20hex([]byte(txt))))
 		}
 	}
 	// Lazy elements through the streaming decoder: documents shorter and (mostly) longer than the decoder's read
